@@ -62,9 +62,9 @@ CLAIMED = {
  "C19": ("exploration", "runtime monitoring: TOML round trip and key-deletion oracle against a transcribed default table",
          "Random configurations over everything TOML can carry: serialise/parse equality field by field, 1-6 deletion documents per configuration checked against the documented defaults, and verify() agreement before/after; a third of the workload is repeated with FLACENC_WORKERS set in the process (serialisation, parsing and defaults must not depend on the environment).",
          "Defaults transcribed from the doc comments.", "DESIGN.md 2/C19"),
- "C20": ("exploration", "runtime monitoring: differential digests of four feature-set builds over a fixed corpus",
-         "A digest binary is built with the four feature sets of the project's CI matrix; the per-case hashes of a 300 (quick) / 3000 (thorough) case corpus must be identical across the builds and with the harness's own computation; the corpus includes streams beyond 1024 frames and pipe-style sources with short reads.",
-         "Only those four feature sets are built.", "DESIGN.md 2/C20"),
+ "C20": ("exploration", "runtime monitoring: differential digests of 9 (quick) / all 32 (thorough) feature-set builds over a fixed corpus",
+         "A digest binary is built with the four feature sets of the project's CI matrix and with each optional feature (log, par, serde, decode, experimental) alone; the thorough tier builds every one of the 32 subsets of those five features; the per-case hashes of a 300 (quick) / 3000 (thorough) case corpus must be identical across the builds and with the harness's own computation; the corpus includes streams beyond 1024 frames and pipe-style sources with short reads.",
+         "simd-nightly, mimalloc and __export_sigen are not among the features the property names and are not built.", "DESIGN.md 2/C20"),
 }
 
 # additions of round 7 (appended to the level text of the property; DESIGN.md 6.2 "Round 7")
@@ -99,6 +99,9 @@ ROUND8 = {
  "C17": " Round 8: one out-of-range sample at every position of blocks of 100 / 191 samples and around the vector boundaries of longer ones, frame and stream level, under configurations without predictors too; frame-level encodes with a StreamInfo deserialised from a document (fix 59ba97d).",
  "C18": " Round 8: constructor arguments handed out by the crate's parser (foreign residuals / subframes with 5-bit Rice parameters above 14; fix 1dfe8d1); Frame::new with a single odd subframe at a random channel; Lpc::new with zero taps.",
  "C19": " Round 8: 'alphabits' - window parameters uniform over the f32 bit patterns of [0, 1]; index 0 reproduces the known finding C19|roundtrip-differs|alpha-bits=0x15ae43fd on every run.",
+}
+
+ROUND10 = {
 }
 
 TODO_REASON = "monitor not built yet in this round (work in progress; will be claimed once its check exists)"
@@ -144,6 +147,7 @@ def main():
         level, technique, text, note, ref = claimed[pid]
         text += ROUND7.get(pid, "")
         text += ROUND8.get(pid, "")
+        text += ROUND10.get(pid, "")
         q, t = passes(pid)
         if t:
             technique += "; sanitizer passes: quick [" + ", ".join(q) + "], thorough [" + ", ".join(t) + "]"
